@@ -1,6 +1,38 @@
 """C01 - integer ring arithmetic is exact for every operand size and sign."""
+import os
+import sys
 import core
 from core import hx, gen_mag
+
+# coq/gen/MulMemory.v (math::ceil_log2, the scratch-memory formulas memory_requirement_up_to / _exact of mul/mod.rs,
+# karatsuba.rs, toom_3.rs, sqr/mod.rs, and the Buffer::allocate / MemoryAllocation::new amounts of pow.rs) is regenerated from
+# the Rust sources when this plug-in is imported, i.e. before the proof phase of every run (tools/translate.py is shared and
+# not ours to edit).  Int/RingScratchProofs.v proves `consumed <= reserved` over the generated definitions, Int/RingPowWProofs.v
+# that pow.rs stays inside the generated capacities: an edited constant breaks a proof obligation.  Unparseable source is not
+# an alarm: the previous copy stays (marked STALE), the status goes into the evidence and the correspondence run (op kmem) ties
+# the formulas alone.
+sys.path.insert(0, os.path.join(core.ROOT, "tools"))
+try:
+    import translate_c01_r3
+    MUL_MEMORY_STATUS = translate_c01_r3.generate(core.REPO, os.path.join(core.COQ, "gen"))
+except Exception as _ex:  # the generator itself broke: same fallback as an unparseable source
+    MUL_MEMORY_STATUS = "unparsed generator-failed: %s" % str(_ex)[:200]
+
+
+def extra_phase(tier, seed, exes, oracle):
+    word = MUL_MEMORY_STATUS.split(" ", 1)[0]
+    return {
+        "evaluations": 0,
+        "hist": {"translator_c01_r3:MulMemory:" + word: 1},
+        "nontrivial": [],
+        "samples": [{"fragment": "coq/gen/MulMemory.v (tools/translate_c01_r3.py from integer/src/math.rs, mul/mod.rs, mul/karatsuba.rs, "
+                                 "mul/toom_3.rs, sqr/mod.rs, pow.rs)",
+                     "status": MUL_MEMORY_STATUS,
+                     "tied_by": "C01_scratch_mul, C01_scratch_sqr, C01_scratch_kernels, C01_scratch_sqr_formula_monotone, "
+                                "C01_pow_word_base_word_level, C01_pow_dword_base_word_level + op kmem of the run" if word == "ok"
+                                else "correspondence run only (op kmem; source not parsed, previous copy marked STALE)"}],
+        "failures": [],
+    }
 
 ID = "C01"
 READY = True
